@@ -5,7 +5,7 @@ import ast
 
 from sa import dual
 from sa.loader import AnalysisError, Program, dotted, norm, own_nodes
-from sa.util import parent_map, ancestors, where, call_sites
+from sa.util import parent_map, ancestors, where, call_sites, kwarg
 
 PROPERTY = "C13"
 CORE = ("optuna.samplers", "optuna.pruners", "optuna.storages", "optuna.study")
@@ -200,6 +200,18 @@ def _check_pairs(ctx, s, pairs, a, b, loc):
                   (f"the mirrored comparisons compare different quantities: `{pp.a}` vs `{pp.b}`" if pp.kind == "asym" else
                    f"{pp.kind} is `{pp.a}` in both arms (`{norm(pp.node_a)[:40]}`)") for pp in bad[:3]),
               how="every order-sensitive token differs between the arms: " + ", ".join(map(repr, pairs[:6])), where=loc)
+    # a mirrored index into a sorted array (x[0] vs x[-1]) is a mirror image only if the array holds no NaN: sorting puts
+    # NaN last for both directions. Functions whose arrays are NaN-free by construction are tabled.
+    IDX_NAN_FREE = {
+        "optuna/pruners/_successive_halving.py::_is_trial_promotable_to_next_rung": "rung values come from completed_rung_* system attrs, which are never written for NaN reports",
+    }
+    idxp = [pp for pp in pairs if pp.kind == "idx" and pp.dual]
+    if idxp and f.module.name.startswith("optuna.pruners"):
+        ctx.check(f.short in IDX_NAN_FREE, "R13.2", f.short, f"mirrored-index-needs-nan-free-array:{key}",
+                  message=f"direction site `{key}` takes the first element of a sorted array in one arm and the last in the other (`{norm(idxp[0].node_a)[:40]}` / "
+                          f"`{norm(idxp[0].node_b)[:40]}`): reported values may be NaN and NaN sorts last in both directions, so the two arms are not mirror images "
+                          f"(use the NaN-aware extrema, or filter NaN first)",
+                  how=IDX_NAN_FREE.get(f.short, "function tabled as working on NaN-free values"), where=loc)
     # consistency: all pairs must point the same way (arm A all 'lo'-like or all 'hi'-like is NOT
     # required across kinds - cmp depends on operand roles - but fn/sort/alt pairs must agree)
     fam = [pp for pp in pairs if pp.kind in ("fn", "sort", "alt") and pp.dual]
@@ -436,6 +448,16 @@ def run(ctx):
                           message=f"{f.name}: `{norm(n)[:70]}` treats large and small reported values differently (extremum / sign of infinity) outside any "
                                   f"direction branch: maximize f and minimize -f are no longer mirror images", how="call is inside the arms of a direction site",
                           where=where(f, n))
+    # mirroring a percentile by `100 - q` is exact only for an interpolation rule that is symmetric under reflection
+    for f in p.iter_funcs(("optuna.pruners",)):
+        for n in own_nodes(f.node):
+            if isinstance(n, ast.Call) and (dotted(n.func) or "").split(".")[-1] in ("nanpercentile", "percentile", "nanquantile", "quantile"):
+                m = kwarg(n, "method") or kwarg(n, "interpolation")
+                ok = m is None or (isinstance(m, ast.Constant) and m.value in ("linear", "midpoint"))
+                ctx.check(ok, "R13.5", f.short, f"percentile-interpolation-symmetric:{norm(m)[:20] if m is not None else 'default'}",
+                          message=f"{f.name} computes the percentile with method={norm(m) if m is not None else None}: the maximize case is obtained by asking for the (100 - q)-th percentile, "
+                                  f"which mirrors the minimize case only for a reflection-symmetric rule (linear, midpoint); 'nearest' / 'lower' / 'higher' round the same way "
+                                  f"in both directions", how="default (linear) or midpoint interpolation", where=where(f, n))
     ctx.floor("R13.5", "value_comparisons_in_pruners", n_cmp, 4)
     ctx.count("R13.5", "signed_ops_in_pruners", n_signed)
 
